@@ -818,8 +818,8 @@ impl<T: GseDecapMemory, C: CrcCalculator, MHEM: MandatoryHeaderExtensionManager>
             )
         };
 
-        let total_len_received = (pdu_len + PROTOCOL_LEN + first_label_len) as u16;
-        if decap_context.total_len != total_len_received {
+        let total_len_received = pdu_len + PROTOCOL_LEN + first_label_len;
+        if decap_context.total_len as usize != total_len_received {
             if let Err(err) = self.memory.provision_storage(pdu) {
                 return Err((DecapError::ErrorMemory(err), pkt_len));
             }
